@@ -207,7 +207,7 @@ func c05Run(img memfs.Image, calls []string, failAt int, failMode string) *c05Tr
 		before := world.DumpCatalog(eng.Catalog(), world.DumpOpts{Raw: true, Oplog: true, IndexList: true})
 		acks, stores, inj := st.acks, st.stores, fs.Injected
 		// a commit that cannot get the writer slot would wait for a minute: bound the call generously instead
-		cctx, cancel := context.WithTimeout(bgCtx, 30*time.Second)
+		cctx, cancel := context.WithTimeout(bgCtx, 10*time.Second)
 		w.Ctx = cctx
 		err := all[cn].do(w)
 		cancel()
@@ -379,6 +379,7 @@ func init() {
 				samples = append(samples, map[string]interface{}{"history": h, "op_log": ops, "snapshots": len(base.fs.Snaps)})
 			}
 			// (2) every single fault at every operation
+			blocked := false
 			n := len(base.fs.Ops)
 			for at := 0; at < n && !r.TooMany(); at++ {
 				modes := []string{"error"}
@@ -386,7 +387,15 @@ func init() {
 					modes = append(modes, "short")
 				}
 				for _, m := range modes {
+					if blocked {
+						break // a leaked writer slot has been reported; every further fault would wait for the deadline again
+					}
 					tr := c05Run(start, h, at, m)
+					for _, p := range tr.problems {
+						if strings.HasPrefix(p, "later-commit-blocked") {
+							blocked = true
+						}
+					}
 					k.st.faults++
 					if !tr.fs.Injected {
 						r.Broken("fault at op %d of %s was not injected", at, label)
